@@ -1305,8 +1305,17 @@ class CircuitTemplate(AbstractBaseTemplate):
             # Pass the weight matrix directly; NetworkGraph._generate_edge_equation
             # detects ndim==2 and emits `matvec(W, r)` (Case 0a) or the coupling
             # equations (Case 0b when edge_ir is set).
+            # a scalar weight with a coupling edge template: the template is evaluated per (target, source)
+            # pair, so the uniform weight is expanded to the full matrix (case 0g knows no coupling function)
+            weights = conn.weights
+            if edge_ir is not None and weights.ndim == 0:
+                src_pop = self.populations.get(conn.source.split('/')[0])
+                tgt_pop = self.populations.get(conn.target.split('/')[0])
+                if src_pop is not None and tgt_pop is not None:
+                    weights = np.full((tgt_pop.n, src_pop.n), float(weights))
+
             edge_dict = {
-                'weight': conn.weights,
+                'weight': weights,
                 'delay': conn.delays,
                 'spread': conn.spread,
                 'source_idx': [],
